@@ -28,7 +28,7 @@ for mid in ids:
             rc_mut, out_mut = demo()
             res["demo_mutant_rc"] = rc_mut
             res["demo_mutant_tail"] = out_mut
-            b = subprocess.run(["/tmp/wt/baseline.sh", wt], capture_output=True, text=True, timeout=1200)
+            b = subprocess.run([os.path.join(os.path.dirname(os.path.abspath(__file__)), "baseline.sh"), wt], capture_output=True, text=True, timeout=1200)
             res["baseline"] = b.stdout.strip().splitlines()[0] if b.stdout.strip() else b.stderr[-200:]
         else:
             res["apply_error"] = ap.stderr[-300:]
